@@ -285,7 +285,7 @@ class DefectModel:
 
 def gen_items(rng, kind, n, adversarial):
     if kind == 'int':
-        items = [rng.randint(0, 12) for _ in range(n)]
+        items = [rng.randint(-6, 12) for _ in range(n)]
     elif kind == 'tuple':
         items = [(rng.choice('abx'), rng.randint(0, 9)) for _ in range(n)]
     elif kind == 'seq':
@@ -425,6 +425,65 @@ def systematic(col):
             judge(col, node, items, call(G, items, Group(build_spec(node))), '', {'items': items})
 
 
+def reentrant_same_object(col, rng):
+    """the SAME Group object evaluated again while an evaluation of it is still running (recursion over tree data)"""
+    def mk_tree(depth):
+        return [{'v': rng.randint(-3, 6), 'kids': mk_tree(depth - 1) if depth > 0 and rng.random() < 0.7 else []}
+                for _ in range(rng.randint(1, 3))]
+    for leafkind in ('list', 'sum', 'max'):
+        for _ in range(15):
+            holder = {}
+
+            def rec(n):
+                if n['kids']:
+                    return G(n['kids'], holder['spec'])
+                return n['v']
+
+            def total(n):
+                return n['v'] + (sum(flat(G(n['kids'], holder['spec']))) if n['kids'] else 0)
+
+            def flat(d):
+                out = []
+                for v in (d.values() if isinstance(d, dict) else d):
+                    out.extend(flat(v) if isinstance(v, (dict, list)) else [v])
+                return out
+            if leafkind == 'list':
+                holder['spec'] = Group({lambda n: n['v'] % 2: [rec]})
+
+                def ref(items):
+                    out = {}
+                    for n in items:
+                        out.setdefault(n['v'] % 2, []).append(ref(n['kids']) if n['kids'] else n['v'])
+                    return out
+            elif leafkind == 'sum':
+                holder['spec'] = Group({lambda n: n['v'] % 2: Sum(total)})
+
+                def ref(items):
+                    out = {}
+                    for n in items:
+                        sub = sum(flat(ref(n['kids']))) if n['kids'] else 0
+                        out[n['v'] % 2] = out.get(n['v'] % 2, 0) + n['v'] + sub
+                    return out
+            else:
+                holder['spec'] = Group({lambda n: n['v'] % 2: Max(), 'deep': [lambda n: G(n['kids'], holder['spec']) if n['kids'] else None]}) \
+                    if False else Group({lambda n: n['v'] % 2: [lambda n: (n['v'], G(n['kids'], holder['spec']) if n['kids'] else None)]})
+
+                def ref(items):
+                    out = {}
+                    for n in items:
+                        out.setdefault(n['v'] % 2, []).append((n['v'], ref(n['kids']) if n['kids'] else None))
+                    return out
+            tree = mk_tree(3)
+            got = call(G, tree, holder['spec'])
+            want = call(ref, tree)
+            col.case(('reentrant', leafkind), True)
+            col.count('nested_evaluations')
+            if not got.ok or not want.ok or not same(got.value, want.value):
+                col.violation('C16/state-shared-between-overlapping-evaluations:' + leafkind,
+                              'one Group object evaluated recursively on %s: glom %s ; loop %s' % (short(tree, 300), short(got, 300), short(want, 300)), None)
+                return
+
+
 def rng_len(n):
     return 8 if n % 2 else 3
 
@@ -436,5 +495,6 @@ def run(ctx):
     col.require('nested_evaluations', 100)
     if ctx.shard == 0:
         systematic(col)
+        reentrant_same_object(col, rng)
     for i in range(ctx.n(3000, 30000)):
         one_case(col, rng)
